@@ -36,8 +36,10 @@ static int check_layout(int p, unsigned long c, long start, long end, int rc) {
       if (L < (long)c)
         CHECK(q / (long)c == (q + L - 1) / (long)c, "an instruction shorter than the chunk lies inside one chunk");
     }
+#ifndef GLUE_NOWRITE
     for (int j = 0; j < LMAX; j++)
       if (j < L) CHECK(g_buf[q + j] == l->sig[j], "the instruction's own bytes are unchanged by fitting");
+#endif
     pos = q + L;
   }
   if (rc == EXIT_SUCCESS) CHECK(end == pos, "the offset is the end of the last instruction");
